@@ -53,24 +53,30 @@ class Recorder:
         self.origin: dict[tuple[int, str], dict] = {}   # (gid, key) -> where the entry was stored
         self.tls = threading.local()
         self.problems: list[str] = []
+        self.mutex = threading.RLock()
 
     def tid(self) -> int:
         t = threading.get_ident()
-        if t not in self.tids:
-            self.tids[t] = len(self.tids) + 1
-        return self.tids[t]
+        with self.mutex:
+            if t not in self.tids:
+                self.tids[t] = len(self.tids) + 1
+            return self.tids[t]
 
     def gid(self, real: int) -> int:
-        if real not in self.gids:
-            self.gids[real] = len(self.gids) + 1
-        return self.gids[real]
+        with self.mutex:
+            if real not in self.gids:
+                self.gids[real] = len(self.gids) + 1
+            return self.gids[real]
 
     def fresh_version(self) -> int:
-        self.counter += 1
-        return self.counter
+        with self.mutex:
+            self.counter += 1
+            return self.counter
 
-    def ev(self, *e: Any) -> None:
-        self.events.append([self.tid(), *e])
+    def ev(self, *e: Any) -> int:
+        with self.mutex:                      # (index and append must be one step when threads run freely)
+            self.events.append([self.tid(), *e])
+            return len(self.events) - 1
 
     def fingerprint(self, g: Any) -> Any:
         try:
@@ -156,15 +162,14 @@ class LockProxy:
             rec.ev("sec", "foreign", 0)
             return
         st["sections"] += 1
-        st["sec_idx"].append(len(rec.events))
         if st["kind"] == "clear":
-            rec.ev("sec", "clear", st["gid"])
-            for k in [k for k in rec.origin if k[0] == st["gid"]]:
-                del rec.origin[k]
+            st["sec_idx"].append(rec.ev("sec", "clear", st["gid"]))
+            for k in [k for k in list(rec.origin) if k[0] == st["gid"]]:
+                rec.origin.pop(k, None)
         elif st["sections"] == 1:
-            rec.ev("sec", "lookup", st["gid"], st["key"], st["arg"])
+            st["sec_idx"].append(rec.ev("sec", "lookup", st["gid"], st["key"], st["arg"]))
         else:
-            rec.ev("sec", "store", st["gid"], st["key"], st["arg"])
+            st["sec_idx"].append(rec.ev("sec", "store", st["gid"], st["key"], st["arg"]))
             rec.origin[(st["gid"], st["key"])] = {"call": rec.call, "token": st["token"], "version": st["version"]}
 
     def __enter__(self) -> "LockProxy":
